@@ -5,7 +5,7 @@ id=$1; shift
 cd /repo && git apply /verif/seeded/$id/patch.diff || exit 9
 cd /verif
 for p in "$@"; do
-  out=$(./check $p 2>&1); rc=$?
+  out=$(PYVC_EVIDENCE_DIR=/tmp/pyvc_seed_evidence ./check $p 2>&1); rc=$?
   echo "seed=$id check=$p rc=$rc $(echo "$out" | grep -c '^VIOLATION') violation lines, $(echo "$out" | grep '^VIOLATION' | grep -vc 'no-failing-input-found') replay-confirmed; $(echo "$out" | grep '^SUMMARY' | cut -c1-160)"
   echo "$out" | grep '^VIOLATION\|^UNDECIDED\|^CHECKER' | cut -c1-230 | head -4
 done
